@@ -8,5 +8,6 @@ import YashModel.Errexit.NcDriver
 def runLineC10 (line : String) : String :=
   if line.startsWith "sc " then YashModel.Errexit.runSc line
   else if line.startsWith "nc " then YashModel.Errexit.runNc line
-  else if line.startsWith "rd " then YashModel.Errexit.runRd line else YashModel.Exec.runLine line
+  else if line.startsWith "rd " then YashModel.Errexit.runRd line
+  else if line.startsWith "rp " then YashModel.Errexit.runRp line else YashModel.Exec.runLine line
 def main : IO Unit := YashModel.Proto.mainLoop runLineC10
